@@ -73,11 +73,19 @@ func gsxStubRun(e *ruleguard.Engine, ctx *ruleguard.RunContext, f *ast.File) err
 		gsxEnv.runs++
 	}
 	gsxRunSeen, gsxRunVersion = true, ctx.GoVersion
+	gsxRunCtxSeen = *ctx
 	for i := range gsxRunReports {
 		ctx.Report(&gsxRunReports[i])
 	}
 	return nil
 }
+
+// the run context the engine model was handed last
+var gsxRunCtxSeen ruleguard.RunContext
+
+// a checker may own a runner state; the model needs none
+//gsx:stub github.com/quasilyte/go-ruleguard/ruleguard.NewRunnerState = gsxStubNewRunnerState
+func gsxStubNewRunnerState(e *ruleguard.Engine) *ruleguard.RunnerState { return nil }
 
 // what the rule engine model reports during Run
 var gsxRunReports []ruleguard.ReportData
